@@ -24,6 +24,10 @@ LEAFTYPES = {
     "Float[a b]": (["arr", "a b"], [A((2, 3)), A((3, 3)), A((2,))]),
     "Union[int,Float[a]]": (["union", [["int"], ["arr", "a"]]], [["lit", 1], A((2,)), A((3,))]),
     "Union[Float[a 3],Float[b a]]": (["union", [["arr", "a 3"], ["arr", "b a"]]], [A((2, 5)), A((2, 3)), A((4, 4))]),
+    # string (forward-reference) leaf types, whole and nested in a generic
+    "'int'": (["fwd", "int"], [["lit", 1], ["lit", 1.0], ["lit", "s"]]),
+    "tuple['int','str']": (["tuple", [["fwd", "int"], ["fwd", "str"]]], [["lit", 1], ["lit", "s"], ["lit", 1.5]]),
+    "Optional['str']": (["opt", ["fwd", "str"]], [["lit", "s"], ["lit", 1]]),
     # the same unions in PEP 604 spelling (types.UnionType objects)
     "str|int": (["union", [["str"], ["int"]], "|"], [["lit", 1], ["lit", "s"], ["lit", 1.5]]),
     "str|None": (["opt", ["str"], "|"], [["lit", "s"], ["lit", 1]]),
